@@ -45,6 +45,33 @@ func profile(name string) Profile {
 		p.UniqueP = 45
 	case "C20":
 		w["search"], w["collect"], w["del"], w["upd"] = 20, 25, 12, 20
+	case "C04", "C18":
+		w["reopen"], w["closereopen"], w["search"], w["collect"] = 10, 6, 14, 10
+		p.Sweep = 50
+	case "C05":
+		p.CfgMode = "syncany"
+		w["crashwrite"], w["reopen"], w["closereopen"], w["search"], w["collect"] = 30, 3, 2, 6, 4
+		w["many"], w["bulk"] = 6, 2
+		p.Sweep = 30
+	case "C11":
+		w["fault"], w["repair"], w["control"], w["schema"], w["reopen"], w["closereopen"] = 16, 9, 9, 6, 8, 3
+		w["many"], w["bulk"], w["or"], w["and"] = 2, 1, 1, 1
+		p.CfgMode = "syncany"
+		p.Sweep = 45
+	case "C10":
+		p.CfgMode = "async"
+		w["tick"], w["commit"], w["get"], w["exist"], w["del"], w["upd"] = 30, 6, 10, 8, 10, 16
+		w["reopen"], w["closereopen"], w["control"] = 0, 5, 0
+		p.Sweep = 40
+	case "C17":
+		w["recreate"], w["reopen"], w["closereopen"] = 12, 6, 4
+	case "C12", "C01":
+		w["getabs"] = 6
+	case "C06":
+		w["getabs"], w["ins"], w["upd"], w["many"], w["bulk"], w["failwrite"] = 4, 22, 22, 8, 4, 22
+		w["reopen"], w["closereopen"] = 2, 2
+		p.Sweep = 100
+		p.UniqueP = 50
 	}
 	return p
 }
@@ -75,6 +102,19 @@ func genCfg(r *rand.Rand, p Profile) Cfg {
 	case "sync":
 	case "cache":
 		c.Cache = true
+	case "syncany":
+		c.Cache = pct(r, 40)
+		c.Compress = pct(r, 25)
+		c.Lower = pct(r, 15)
+		if pct(r, 20) {
+			c.Ext = []string{".dat", ".obj.v1", ""}[r.Intn(3)]
+		}
+	case "async":
+		c.Async = true
+		c.Thr = 1 + r.Intn(5)
+		c.To = 1 + r.Intn(4)
+		c.Cache = pct(r, 30)
+		c.Compress = pct(r, 25)
 	default:
 		c.Cache = pct(r, 40)
 		c.Compress = pct(r, 25)
@@ -315,6 +355,20 @@ func (e *Exec) genCmp(r *rand.Rand) string {
 	return fmt.Sprintf("%d %s %s%s", fld, op, probe, native)
 }
 
+// stale: the oracle's match set of a search contains an object deleted since
+func (e *Exec) stale(sid int) bool {
+	sr := e.spec.results[sid]
+	if sr == nil {
+		return false
+	}
+	for _, u := range sr.us {
+		if _, ok := e.spec.live[u]; !ok {
+			return true
+		}
+	}
+	return false
+}
+
 // detSid: whether collect order of a search is a function of the history
 func (e *Exec) collectMode(sid int, lim int64) int {
 	s := e.searches[sid]
@@ -328,6 +382,13 @@ func (e *Exec) collectMode(sid int, lim int64) int {
 }
 
 var nextSid int
+
+func sweepIf(r *rand.Rand, p Profile, ls ...string) []string {
+	if pct(r, p.Sweep) {
+		ls = append(ls, "count", "all", "dump", "fs")
+	}
+	return ls
+}
 
 // GenOp produces the next op line(s) for the running history
 func (e *Exec) GenOp(r *rand.Rand, p Profile) []string {
@@ -350,6 +411,10 @@ func (e *Exec) GenOp(r *rand.Rand, p Profile) []string {
 		x -= p.W[k]
 	}
 	sweep := func(ls ...string) []string {
+		if p.Name == "C06" && (strings.HasPrefix(ls[0], "ins") || strings.HasPrefix(ls[0], "many") || strings.HasPrefix(ls[0], "bulk")) {
+			// full observation sweep before and after every write call
+			return append(append([]string{"count", "all", "dump"}, ls...), "count", "all", "dump", "control", "fs")
+		}
 		if pct(r, p.Sweep) {
 			ls = append(ls, "count", "all", "dump", "fs")
 		}
@@ -362,6 +427,47 @@ func (e *Exec) GenOp(r *rand.Rand, p Profile) []string {
 			f = genBad(r, f)
 		}
 		return sweep("ins " + f.String())
+	case "crashwrite":
+		// the process dies at the k-th mutating file operation of a mutating call; the
+		// directory is then reopened, checked, repaired and swept
+		var w string
+		switch x := r.Intn(10); {
+		case x < 3 || len(e.spec.live) == 0:
+			w = "ins " + genRec(r, e.cfg).String()
+		case x < 6:
+			f := genRec(r, e.cfg)
+			f.U = e.pickLive(r)
+			w = "ins " + f.String()
+		case x < 7:
+			w = fmt.Sprintf("del %d", e.pickLive(r))
+		case x < 8:
+			f := genRec(r, e.cfg)
+			f.U = e.pickLive(r)
+			w = "many " + genRec(r, e.cfg).String() + " " + f.String() + " " + genRec(r, e.cfg).String()
+		case x < 9:
+			w = "delall"
+		default:
+			w = "commit"
+		}
+		return []string{fmt.Sprintf("crashat %d", r.Intn(7)), w, "schema", "control", "count", "all", "dump", "fs",
+			"repair", "control", "count", "all", "dump", "fs"}
+	case "failwrite":
+		// a single storage fault at the k-th mutating file operation of a write call, then
+		// Control / Repair / Control and the sweep
+		var w []string
+		if pct(r, 50) || len(e.spec.live) == 0 {
+			w = []string{"ins " + genRec(r, e.cfg).String()}
+		} else {
+			f := genRec(r, e.cfg)
+			f.U = e.pickLive(r)
+			w = []string{"ins " + f.String()}
+		}
+		if pct(r, 15) {
+			w = []string{"many " + genRec(r, e.cfg).String() + " " + genRec(r, e.cfg).String()}
+		}
+		out := []string{"count", "all", "dump", fmt.Sprintf("failat %d", r.Intn(5))}
+		out = append(out, w...)
+		return append(out, "count", "all", "dump", "control", "fs", "repair", "control", "count", "all", "dump", "fs")
 	case "upd":
 		u := e.pickLive(r)
 		if u == 0 {
@@ -455,6 +561,11 @@ func (e *Exec) GenOp(r *rand.Rand, p Profile) []string {
 		if pct(r, 35) {
 			rev = 1
 		}
+		if e.collectMode(sid, lim) != 0 && e.stale(sid) {
+			// iteration order is Go map order and some object is gone: which read fails first
+			// (and whether the limit is reached before it) is not a function of the history
+			return []string{fmt.Sprintf("len %d", sid)}
+		}
 		return []string{fmt.Sprintf("collect %d %d %d %d", sid, lim, rev, e.collectMode(sid, lim))}
 	case "one":
 		sid := e.pickSid(r)
@@ -464,6 +575,9 @@ func (e *Exec) GenOp(r *rand.Rand, p Profile) []string {
 		m := 0
 		if !e.searches[sid].det {
 			m = 2
+			if e.stale(sid) {
+				return []string{fmt.Sprintf("len %d", sid)}
+			}
 		}
 		return []string{fmt.Sprintf("one %d %d", sid, m)}
 	case "sdel":
@@ -507,7 +621,55 @@ func (e *Exec) GenOp(r *rand.Rand, p Profile) []string {
 	case "aidx":
 		return []string{fmt.Sprintf("aidx %d", e.genField(r)%NF)}
 	case "control":
+		if e.cfg.Async {
+			return []string{"flushall", "control"}
+		}
 		return []string{"control"}
+	case "tick":
+		return sweepIf(r, p, "tick")
+	case "schema":
+		return []string{"schema"}
+	case "repair":
+		if e.cfg.Async {
+			return sweep("flushall", "repair", "control")
+		}
+		return sweep("repair", "control")
+	case "recreate":
+		// Create again: same schema, or a switch of cache / async settings
+		kv := fmt.Sprintf("cache=%d", r.Intn(2))
+		return sweep("create " + kv)
+	case "fault":
+		switch r.Intn(7) {
+		case 0, 1:
+			u := e.pickLive(r)
+			if u == 0 {
+				return e.GenOp(r, p)
+			}
+			return []string{fmt.Sprintf("rmfile %d", u)}
+		case 2, 3:
+			f := genRec(r, e.cfg)
+			f.U = len(e.uu) + r.Intn(2)
+			f.K[shape.FTM], f.K[shape.FVM] = "i0", "i0"
+			cf, _ := e.spec.canon(f)
+			return []string{"addfile " + cf.String()}
+		case 4:
+			u := e.pickLive(r)
+			if u == 0 {
+				return e.GenOp(r, p)
+			}
+			return []string{"close", "reopen", fmt.Sprintf("rmentry %d", u)}
+		case 5:
+			return []string{"stray " + []string{"nodot", "dot", "subdir"}[r.Intn(3)]}
+		default:
+			if pct(r, 30) {
+				return []string{"close", "reopen", "rmschema", "schema"}
+			}
+			u := e.pickLive(r)
+			if u == 0 {
+				return e.GenOp(r, p)
+			}
+			return []string{fmt.Sprintf("%s %d", []string{"corrupt", "truncfile"}[r.Intn(2)], u)}
+		}
 	case "commit":
 		return []string{[]string{"commit", "flushall", "flushallc"}[r.Intn(3)]}
 	}
